@@ -21,6 +21,10 @@ CHECKS = {
                 "greedy policy validity; shift / monotonicity / contraction laws on the implementation's outputs.",
                 "A sweep is observed through documented attributes (values, gamma, solve(1)); self-checked per case.",
                 "Hypothesis generated MDPs and value vectors, numpy reference backup + metamorphic relations", "2/C02"),
+    "C04": _mdp("Generated unichain aperiodic MDPs (by construction or brute-force verified): gain, policy gain, optimality-equation "
+                "residual and n-independent boundedness of the relative values against an exact average-reward oracle.",
+                "Unichain by construction/enumeration; Howard PI cross-checked by policy enumeration on small cases.",
+                "Hypothesis generated unichain MDPs, exact gain oracle (Howard PI / enumeration / stationary distributions)", "2/C04"),
     "C05": _mdp("Generated MDPs x arbitrary injected policies: evaluation compared with a numpy replica of the documented "
                 "loop and with the exact V_pi; termination compared with the policy sequence of a stepped twin; initial policy clause.",
                 "Borderline evaluation sweeps (measure within rounding of the threshold) are dropped.",
@@ -37,6 +41,10 @@ CHECKS = {
                 "documented stopping rule with its own sweep counter, plus a twin solver given the summed limit.",
                 "Relative VI compared modulo an additive constant; PI judged by the twin and at-most-k clauses; known finding F10 excluded and counted.",
                 "Hypothesis generated call histories, model-based oracle + split/single-call differential", "2/C08"),
+    "C17": _mdp("Generated tabular problems x tolerance x optional mass defect: returned matrices against numpy accumulation, "
+                "error path (ValueError naming the pair) and solve-both-ways agreement.",
+                "Reads the named pair from the message format 'state i, action j'.",
+                "Hypothesis generated problems and fault injection (mass defect), numpy accumulation + exact-solve differential", "2/C17"),
     "C18": dict(
         category="exploration",
         text="Complete enumeration of a bounded box of (n_states, max_batch_size, devices) plus generated large sizes, "
